@@ -776,3 +776,181 @@ func c01R36(ic *IC, r *Report) {
 		r.Pass("R01.36", "package/no-possibly-nil-successor-stored", "", fmt.Sprintf("%d node variables declared without a value in the wiring code, none stored into a successor link while possibly nil", nVars))
 	}
 }
+
+func init() {
+	ruleText["R01.37"] = "a break leaves the innermost for, switch or select statement of its function: (a) in the compile pass every node kind of those statements records itself as the target of break - a case of cfg listing the kind assigns the scope's loop field (for select: the select kind itself, or both kinds of its clauses); (b) the target is not inherited by the scope of a function: in (*scope).push the copy of the loop fields from the enclosing scope is not executed for a scope which starts a new frame; (c) an unlabelled break or continue whose scope has no target is an error, not a jump to a nil successor (which ends the function silently)"
+}
+
+// c01R37: found while repairing C12 (break outside a loop accepted): select statements never
+// recorded themselves, so a break in a select left the enclosing loop - or the function.
+func c01R37(ic *IC, r *Report) {
+	info := ic.Info
+	cfgFn := ic.fn(r, "Interpreter.cfg")
+	if cfgFn == nil {
+		return
+	}
+	loopFld, restartFld := ic.field("scope", "loop"), ic.field("scope", "loopRestart")
+	if loopFld == nil || restartFld == nil {
+		r.Errorf("R01.37: fields scope.loop / scope.loopRestart not found")
+		return
+	}
+	// (a) kinds whose case assigns sc.loop
+	sets := map[string]string{}
+	ast.Inspect(cfgFn.Decl.Body, func(q ast.Node) bool {
+		cc, ok := q.(*ast.CaseClause)
+		if !ok {
+			return true
+		}
+		labels := kindLabels(ic, cc)
+		if len(labels) == 0 {
+			return true
+		}
+		for _, st := range cc.Body {
+			ast.Inspect(st, func(z ast.Node) bool {
+				if inner, ok := z.(*ast.CaseClause); ok && len(kindLabels(ic, inner)) > 0 {
+					return false
+				}
+				as, ok := z.(*ast.AssignStmt)
+				if !ok {
+					return true
+				}
+				for _, l := range as.Lhs {
+					if se, ok := unparen(l).(*ast.SelectorExpr); ok && selField(info, se) == loopFld {
+						for _, lb := range labels {
+							sets[lb] = ic.pos(as.Pos())
+						}
+					}
+				}
+				return true
+			})
+		}
+		return true
+	})
+	var kinds []string
+	sc := ic.Pk.Types.Scope()
+	for _, name := range sc.Names() {
+		c, ok := sc.Lookup(name).(*types.Const)
+		if !ok {
+			continue
+		}
+		if nt, ok := c.Type().(*types.Named); !ok || nt.Obj().Name() != "nkind" {
+			continue
+		}
+		if strings.HasPrefix(name, "forStmt") || name == "forRangeStmt" || name == "switchStmt" || name == "switchIfStmt" || name == "typeSwitch" || name == "selectStmt" {
+			kinds = append(kinds, name)
+		}
+	}
+	sort.Strings(kinds)
+	if len(kinds) < 12 {
+		r.Errorf("R01.37: only %d statement kinds that a break can leave found among the node kinds (for x9, switch x3, select expected)", len(kinds))
+	}
+	for _, k := range kinds {
+		at, ok := sets[k]
+		if k == "selectStmt" && !ok {
+			a, oka := sets["commClause"]
+			_, okb := sets["commClauseDefault"]
+			ok, at = oka && okb, a
+		}
+		r.Check(ok, "R01.37", "cfg/"+k+"/records-itself-as-the-target-of-break", ic.pos(cfgFn.Decl.Pos()), "a case listing the kind assigns the scope's loop field ("+at+")",
+			"no case of cfg listing the node kind "+k+" (nor, for a select, the kinds of its clauses) assigns the scope's loop field: a break inside such a statement is wired to the enclosing statement that did record itself - `for { select { case <-c: break }; after() }` leaves the loop without running after() - or, when there is none, to a nil successor, which ends the function silently")
+	}
+	// (b) scope.push: the copy of loop is guarded by the parameter that separates frames
+	if push := ic.fn(r, "scope.push"); push != nil {
+		n := 0
+		ast.Inspect(push.Decl.Body, func(q ast.Node) bool {
+			as, ok := q.(*ast.AssignStmt)
+			if !ok {
+				return true
+			}
+			copies := false
+			for _, l := range as.Lhs {
+				if se, ok := unparen(l).(*ast.SelectorExpr); ok && (selField(info, se) == loopFld || selField(info, se) == restartFld) {
+					copies = true
+				}
+			}
+			if !copies {
+				return true
+			}
+			n++
+			guarded := false
+			var params []types.Object
+			for _, f := range push.Decl.Type.Params.List {
+				for _, nm := range f.Names {
+					params = append(params, info.ObjectOf(nm))
+				}
+			}
+			for _, p := range enclosingPath(push.Decl.Body, as) {
+				if ifs, ok := p.(*ast.IfStmt); ok {
+					ast.Inspect(ifs.Cond, func(z ast.Node) bool {
+						if id, ok := z.(*ast.Ident); ok {
+							for _, pr := range params {
+								if info.ObjectOf(id) == pr {
+									guarded = true
+								}
+							}
+						}
+						return true
+					})
+				}
+			}
+			r.Check(guarded, "R01.37", fmt.Sprintf("scope.push/loop-copy#%d/not-across-functions", n), ic.pos(as.Pos()), "the copy is under a condition on the parameter that tells a new frame from a block",
+				"(*scope).push copies the loop fields of the enclosing scope unconditionally, also into the scope of a function literal: `for ... { func() { break }() }` is accepted (compiled Go: break is not in a loop) and the break of the literal is wired to a node of the enclosing function, which is executed in the frame of the literal")
+			return true
+		})
+		if n == 0 {
+			r.Errorf("R01.37: no copy of the loop fields found in (*scope).push")
+		}
+	}
+	// (c) the unlabelled break/continue cases test their target
+	for _, k := range [][2]string{{"breakStmt", "loop"}, {"continueStmt", "loopRestart"}} {
+		fld := loopFld
+		if k[1] == "loopRestart" {
+			fld = restartFld
+		}
+		var cc *ast.CaseClause
+		ast.Inspect(cfgFn.Decl.Body, func(q ast.Node) bool {
+			c, ok := q.(*ast.CaseClause)
+			if !ok {
+				return true
+			}
+			ls := kindLabels(ic, c)
+			if len(ls) != 1 || ls[0] != k[0] {
+				return true
+			}
+			reads := false
+			ast.Inspect(c, func(z ast.Node) bool {
+				if se, ok := z.(*ast.SelectorExpr); ok && selField(info, se) == fld {
+					reads = true
+				}
+				return true
+			})
+			if reads {
+				cc = c
+			}
+			return true
+		})
+		if cc == nil {
+			r.Errorf("R01.37: the %s case of cfg reading the scope's %s field was not found", k[0], k[1])
+			continue
+		}
+		tested := ""
+		ast.Inspect(cc, func(q ast.Node) bool {
+			ifs, ok := q.(*ast.IfStmt)
+			if !ok || len(callsIn(info, ifs.Body, true, "interp.node.cfgErrorf")) == 0 {
+				return true
+			}
+			b, ok := unparen(ifs.Cond).(*ast.BinaryExpr)
+			if !ok || b.Op != token.EQL {
+				return true
+			}
+			if se, ok := unparen(b.X).(*ast.SelectorExpr); ok && selField(info, se) == fld {
+				if id := identOf(b.Y); id != nil && id.Name == "nil" {
+					tested = ic.pos(ifs.Pos())
+				}
+			}
+			return true
+		})
+		r.Check(tested != "", "R01.37", "cfg/case:"+k[0]+"/target-tested", ic.pos(cc.Pos()), "a missing target is an error ("+tested+")",
+			"the "+k[0]+" case of cfg stores the scope's "+k[1]+" field into the successor of the statement without testing it: outside of a loop (switch, select) it is nil, the statement is accepted (compiled Go: break is not in a loop, switch, or select) and ends the function silently when executed")
+	}
+}
